@@ -468,55 +468,60 @@ Proof. vm_compute. repeat split; reflexivity. Qed.
 Lemma incl_remove_by_price r maxp its : incl (remove_by_price r maxp its) its.
 Proof. intros x H. apply In_remove_by_price in H. tauto. Qed.
 
-Lemma multi_probe_inv flag cs s d :
-  multi_probe flag cs s = Some d ->
+Lemma multi_probe_inv ap flag cs s d :
+  multi_probe_ev ap flag cs s = Some d ->
   (d = Delete /\ compute flag cs s = Delete) \/
   (exists r opts opts', d = Replace r opts' /\ compute flag cs s = Replace r opts /\ incl opts' opts /\ opts' <> [] /\
      forall it, List.In it opts' -> plt (launch_price r it) (same_type_max_price opts cs) = true).
 Proof.
-  unfold multi_probe. destruct (compute flag cs s) as [| |r opts] eqn:Ec; [discriminate|intros [= <-]; left; split; reflexivity|].
+  unfold multi_probe_ev. destruct (compute flag cs s) as [| |r opts] eqn:Ec; [discriminate| |].
+  { destruct (ap cs Delete); [|discriminate]. intros [= <-]. left. split; reflexivity. }
   unfold filter_out_same_type, remove_by_price_mv.
   destruct (snd (sat_min_values _ r)); [|discriminate].
   destruct (remove_by_price r (same_type_max_price opts cs) opts) as [|a l] eqn:El; [discriminate|].
+  destruct (ap cs (Replace r (a :: l))); [|discriminate].
   intros [= <-]. right. exists r, opts, (a :: l). rewrite <- El. repeat split.
   - apply incl_remove_by_price.
   - rewrite El. discriminate.
   - intros it Hin. apply In_remove_by_price in Hin. tauto.
 Qed.
 
-Lemma first_n_go_inv fuel flag cs sims : forall lo hi last k d,
-  (forall k0 d0, last = Some (k0, d0) -> multi_probe flag (firstn k0 cs) (sims k0) = Some d0) ->
-  first_n_go fuel flag cs sims lo hi last = Some (k, d) ->
-  multi_probe flag (firstn k cs) (sims k) = Some d.
+Lemma first_n_go_inv ap fuel flag cs sims : forall lo hi last k d,
+  (forall k0 d0, last = Some (k0, d0) -> multi_probe_ev ap flag (firstn k0 cs) (sims k0) = Some d0) ->
+  first_n_go ap fuel flag cs sims lo hi last = Some (k, d) ->
+  multi_probe_ev ap flag (firstn k cs) (sims k) = Some d.
 Proof.
   induction fuel as [|f IH]; intros lo hi last k d Hlast; simpl.
   - intros H. apply Hlast, H.
   - destruct (hi <? lo); [intros H; apply Hlast, H|].
-    destruct (multi_probe flag (firstn (Z.to_nat ((lo + hi) / 2 + 1)) cs) (sims (Z.to_nat ((lo + hi) / 2 + 1)))) as [d1|] eqn:Ep.
+    destruct (multi_probe_ev ap flag (firstn (Z.to_nat ((lo + hi) / 2 + 1)) cs) (sims (Z.to_nat ((lo + hi) / 2 + 1)))) as [d1|] eqn:Ep.
     + apply IH. intros k0 d0 [= <- <-]. exact Ep.
     + apply IH. exact Hlast.
 Qed.
 
-Lemma first_n_inv flag cs sims k d :
-  first_n flag cs sims = Some (k, d) -> multi_probe flag (firstn k cs) (sims k) = Some d.
+Lemma first_n_inv ap flag cs sims k d :
+  first_n_ev ap flag cs sims = Some (k, d) -> multi_probe_ev ap flag (firstn k cs) (sims k) = Some d.
 Proof.
-  unfold first_n. destruct (Z.of_nat (length cs) <? 2); [discriminate|].
+  unfold first_n_ev. destruct (Z.of_nat (length cs) <? 2); [discriminate|].
   apply first_n_go_inv. intros k0 d0 H. discriminate.
 Qed.
 
-Lemma single_inv flag l c d :
-  single flag l = Some (c, d) -> exists s, List.In (c, s) l /\ compute flag [c] s = d /\ d <> NoOp.
+Lemma single_inv ap cp flag l c d :
+  single_ev ap cp flag l = Some (c, d) -> exists s, List.In (c, s) l /\ compute flag [c] s = d /\ d <> NoOp.
 Proof.
   induction l as [|[c0 s0] l IH]; simpl; [discriminate|].
-  destruct (compute flag [c0] s0) eqn:Ec.
-  - intros H. destruct (IH H) as (s & Hin & Hd). exists s. split; [right; exact Hin|exact Hd].
-  - intros [= <- <-]. exists s0. split; [left; reflexivity|]. split; [exact Ec|discriminate].
-  - intros [= <- <-]. exists s0. split; [left; reflexivity|]. split; [exact Ec|discriminate].
+  assert (Hrec : single_ev ap cp flag l = Some (c, d) -> exists s, List.In (c, s) l /\ compute flag [c] s = d /\ d <> NoOp) by exact IH.
+  assert (Hr : single_ev ap cp flag l = Some (c, d) -> exists s, List.In (c, s) ((c0, s0) :: l) /\ compute flag [c] s = d /\ d <> NoOp).
+  { intros H. destruct (Hrec H) as (s & Hin & Hd). exists s. split; [right; exact Hin|exact Hd]. }
+  destruct (cp c0); simpl; [|exact Hr].
+  destruct (compute flag [c0] s0) eqn:Ec; [exact Hr| |].
+  - destruct (ap [c0] Delete); [|exact Hr]. intros [= <- <-]. exists s0. split; [left; reflexivity|]. split; [exact Ec|discriminate].
+  - destruct (ap [c0] (Replace r opts)); [|exact Hr]. intros [= <- <-]. exists s0. split; [left; reflexivity|]. split; [exact Ec|discriminate].
 Qed.
 
 (* every command the multi-node search returns satisfies the same price guarantees *)
-Lemma multi_strictly_cheaper_partial_l flag cs sims k r opts :
-  first_n flag cs sims = Some (k, Replace r opts) -> sim_ok (sims k) -> sim_reserved_pinned (sims k) ->
+Lemma multi_strictly_cheaper_partial_l ap flag cs sims k r opts :
+  first_n_ev ap flag cs sims = Some (k, Replace r opts) -> sim_ok (sims k) -> sim_reserved_pinned (sims k) ->
   forall it, List.In it opts -> cheaper r (sum_prices (firstn k cs)) it /\ od_safe r (sum_prices (firstn k cs)) it.
 Proof.
   intros H Hok Hg it Hin. apply first_n_inv, multi_probe_inv in H as [[H _]|(r0 & o0 & o' & E & Hc & Hincl & _)]; [discriminate|].
@@ -525,8 +530,8 @@ Proof.
   - eapply no_od_fallback_partial_l; eauto.
 Qed.
 
-Lemma multi_pods_have_home_l flag cs sims k d :
-  first_n flag cs sims = Some (k, d) -> wf_sim (sims k) ->
+Lemma multi_pods_have_home_l ap flag cs sims k d :
+  first_n_ev ap flag cs sims = Some (k, d) -> wf_sim (sims k) ->
   (2 <= k)%nat /\ (length (s_new (sims k)) <= 1)%nat /\
   forall p, List.In p (s_pods (sims k)) -> pp_origin p = OnCandidate ->
     good_place (length (s_new (sims k))) (pp_where p) = true.
@@ -536,16 +541,16 @@ Proof.
   { apply multi_probe_inv in H as [[_ Hc]|(r & o & o' & _ & Hc & _)]; rewrite Hc; discriminate. }
   split; [|apply (pods_have_home_l _ _ _ Hne Hwf)].
   (* the search only probes prefixes of at least two candidates *)
-  clear H Hne Hwf. unfold first_n in H0. destruct (Z.of_nat (length cs) <? 2); [discriminate|].
+  clear H Hne Hwf. unfold first_n_ev in H0. destruct (Z.of_nat (length cs) <? 2); [discriminate|].
   revert H0. generalize (S (length cs)) as fuel.
   assert (G : forall fuel lo hi last, 1 <= lo ->
             (forall k0 d0, last = Some (k0, d0) -> (2 <= k0)%nat) ->
-            first_n_go fuel flag cs sims lo hi last = Some (k, d) -> (2 <= k)%nat).
+            first_n_go ap fuel flag cs sims lo hi last = Some (k, d) -> (2 <= k)%nat).
   { induction fuel as [|f IH]; intros lo hi last Hlo Hl; simpl.
     - intros E. eapply Hl, E.
     - destruct (hi <? lo) eqn:Ehl; [intros E; eapply Hl, E|]. apply Z.ltb_ge in Ehl.
       assert (Hmid : 1 <= (lo + hi) / 2) by (apply Z.div_le_lower_bound; lia).
-      destruct (multi_probe _ _ _) as [d1|].
+      destruct (multi_probe_ev _ _ _ _) as [d1|].
       + apply IH; [lia|]. intros k1 d2 [= <- <-]. lia.
       + apply IH; [lia|exact Hl]. }
   intros fuel. apply G; [lia|]. intros k0 d0 E. discriminate.
